@@ -109,7 +109,26 @@ def apply_request(beh, c, via='api'):
         return (('subset', 'encode-result', type(e).__name__, feat), 'encoding / decoding the result of request %r raised %r' % (c['req'], e))
     if flat_of(src) != before:
         return (('subset', 'source', 'modified', feat), 'the source message changed')
-    return compare_result(beh, c, src, res, feat)
+    bad = compare_result(beh, c, src, res, feat)
+    if bad:
+        return bad
+    # "gives a valid message" whichever way the encoder treats the lengths the data carry: with declared lengths honoured
+    # (ignore_declared_length=False) the result may be longer (zero-filled sections, C04) but its section-0 length is its size,
+    # it ends with the stop signature and it decodes to the same subsets
+    try:
+        b2 = bytes(Encoder(ignore_declared_length=False).process(src.subset(list(c['req']))).serialized_bytes)
+    except PyBufrKitError:
+        return None                                  # a refusal is not an invalid message
+    except Exception as e:
+        return (('subset', 'encode-result', type(e).__name__, feat + ',honour'), 'encoding the result of request %r with declared lengths honoured raised %r' % (c['req'], e))
+    if int.from_bytes(b2[4:7], 'big') != len(b2) or b2[-4:] != b'7777':
+        return (('subset', 'invalid-message', 'length', feat + ',honour'), 'request %r encoded with declared lengths honoured: section 0 declares %d octets, the message has %d' % (
+            c['req'], int.from_bytes(b2[4:7], 'big'), len(b2)))
+    try:
+        res2 = Decoder().process(b2)
+    except Exception as e:
+        return (('subset', 'invalid-message', type(e).__name__, feat + ',honour'), 'the result encoded with declared lengths honoured does not decode: %r' % (e,))
+    return compare_result(beh, c, src, res2, feat + ',honour')
 
 
 def compare_result(beh, c, src, res, feat):
